@@ -41,13 +41,26 @@ def run(ctx):
         raise AnalysisError("N1", "marker attributes not found in FiltersSet.__init__")
     # writer
     wname = wdesc = None
+    def entry_keys(a):
+        """keys of the filter entry whose value the written expression carries: f["k"], f.get("k"), or a local bound to one of them"""
+        keys = set()
+        for x in ast.walk(a):
+            e = x
+            if isinstance(e, ast.Name):
+                defs = [d.value for d in walk_no_nested(w.node) if isinstance(d, ast.Assign) and any(isinstance(t, ast.Name) and t.id == e.id for t in d.targets)]
+                e = defs[0] if len(defs) == 1 else e
+            if isinstance(e, ast.Subscript) and isinstance(const_value(ctx.program, w, e.slice), str):
+                keys.add(const_value(ctx.program, w, e.slice))
+            if isinstance(e, ast.Call) and call_name(e) == "get" and e.args and isinstance(const_value(ctx.program, w, e.args[0]), str):
+                keys.add(const_value(ctx.program, w, e.args[0]))
+        return keys
     for c in walk_no_nested(w.node):
         if isinstance(c, ast.Call) and call_name(c) == "write" and c.args:
             a = c.args[0]
-            t = norm(a)
-            if "['name']" in t:
+            ks = entry_keys(a)
+            if "name" in ks:
                 wname = (a, [x.attr for x in ast.walk(a) if isinstance(x, ast.Attribute) and "pretext" in x.attr], c)
-            if "['description']" in t:
+            if "description" in ks:
                 wdesc = (a, [x.attr for x in ast.walk(a) if isinstance(x, ast.Attribute) and "pretext" in x.attr], c)
     if not wname or not wdesc:
         raise AnalysisError("N1", "renderer: name/description writes not found")
@@ -71,7 +84,7 @@ def run(ctx):
 
     def has_desc(fc):
         e, pol = fact_atom(fc)
-        return norm(e).endswith("['description']") and pol is True
+        return pol is True and "description" in entry_keys(e)
     if all(cfgw.guarded(x, has_desc) for x in cfgw.node_containing(wdesc[2])):
         ctx.holds("N1", "description written only when present and non-empty")
     else:
